@@ -370,6 +370,37 @@ Section RoundTrip.
   Qed.
 End RoundTrip.
 
+(* the same for a merklizer built from a normalised dataset (MerklizeJSONLD):
+   EntriesFromRDFWithHasher gives every entry the merklizer's hasher *)
+Theorem roundtrip_document T json_ok Hd F cfg0 ds m0 :
+  merklize_ds T Hd F cfg0 None ds = Ok m0 ->
+  forall pi, Permutation pi (mz_entries m0) ->
+  forall src comp safe Hd' cfg inlen,
+  hasher_or Hd' cfg = hasher_or Hd cfg0 ->
+  json_ok comp = true ->
+  Z.of_nat (List.length (mz_entries m0)) <= inlen ->
+  exists w, marshal T pi (mkmzx m0 src comp safe) = Ok w /\
+    unmarshal T Hd' json_ok cfg None inlen w =
+    Ok (mkmzx (mkmz pi (mz_tree m0) (hasher_or Hd cfg0)) src comp safe) /\
+    mz_root T (mkmz pi (mz_tree m0) (hasher_or Hd cfg0)) = mz_root T m0 /\
+    Permutation (mz_entries (mkmz pi (mz_tree m0) (hasher_or Hd cfg0))) (mz_entries m0) /\
+    forall Hd'' p,
+      mz_entry Hd'' (mkmz pi (mz_tree m0) (hasher_or Hd cfg0)) p = mz_entry Hd'' m0 p /\
+      mz_jsonld_type Hd'' (mkmz pi (mz_tree m0) (hasher_or Hd cfg0)) p = mz_jsonld_type Hd'' m0 p /\
+      mz_proof T Hd'' (mkmz pi (mz_tree m0) (hasher_or Hd cfg0)) p = mz_proof T Hd'' m0 p.
+Proof.
+  intros Hmz pi Hpi src comp safe Hd' cfg inlen Hcfg Hjson Hlen.
+  unfold merklize_ds, entries_from_rdf_h in Hmz. cbn [hasher_or] in Hmz.
+  apply bind_ok in Hmz. destruct Hmz as (es & Hes & Hm0).
+  apply bind_ok in Hes. destruct Hes as (es0 & _ & Hes). inversion Hes; subst es; clear Hes.
+  set (h := hasher_or Hd cfg0) in *.
+  pose proof (wrap_entry_uses h es0) as Huse.
+  destruct (roundtrip T json_ok Hd h _ m0 Huse Hm0 pi Hpi src comp safe Hd' cfg inlen Hcfg Hjson Hlen)
+    as (w & Hw & Hun).
+  destruct (restored_observables T Hd h _ m0 Huse Hm0 pi Hpi) as (A & _ & B & C).
+  exists w. repeat split; auto; apply C.
+Qed.
+
 (* ------------------------------------------------------------------ *)
 (* declared count; totality                                             *)
 (* ------------------------------------------------------------------ *)
